@@ -51,9 +51,14 @@ def flatten (rows : List (Nat × List α)) : Flat α :=
 /-- a row run of the table: `number-rows-repeated` and the cell events (`value`, `number-columns-repeated`) -/
 abbrev RowRun (α : Type) := Nat × List (α × Nat)
 
-/-- the rows as `read_row` leaves them in `cells` (values only: a cell is blank iff its value is) -/
+/-- the rows as `read_row` leaves them in one output vector: `runs` = (`number-rows-repeated`, cell events
+    with payload `ε`), `pend` / `val` as in `readRow` -/
+def collectG {ε : Type} (pend : ε → Bool) (val : ε → α) (runs : List (Nat × List (ε × Nat))) : List (Nat × List α) :=
+  runs.map fun r => (r.1, readRow pend val r.2 0)
+
+/-- value-only cell events: a cell is blank iff its value is -/
 def collectRows (runs : List (RowRun α)) : List (Nat × List α) :=
-  runs.map fun r => (r.1, readRow (fun v => decide (v = default)) id r.2 0)
+  collectG (fun v => decide (v = default)) id runs
 
 /-- `read_table` on value-only cell events -/
 def collect (runs : List (RowRun α)) : Flat α := flatten (collectRows runs)
@@ -61,16 +66,17 @@ def collect (runs : List (RowRun α)) : Flat α := flatten (collectRows runs)
 /-- a row run whose cell events carry a value and a formula -/
 abbrev RowRunVF (α β : Type) := Nat × List ((α × β) × Nat)
 
+/-- `value.is_empty() && formula.is_empty()` -/
 def pendVF {β : Type} [Inhabited β] [DecidableEq β] (e : α × β) : Bool :=
   decide (e.1 = default) && decide (e.2 = default)
 
 /-- `read_table`, the `cells` vector (values) when cells also carry formulas -/
 def collectV {β : Type} [Inhabited β] [DecidableEq β] (runs : List (RowRunVF α β)) : Flat α :=
-  flatten (runs.map fun r => (r.1, readRow pendVF (·.1) r.2 0))
+  flatten (collectG pendVF (·.1) runs)
 
 /-- `read_table`, the `formulas` vector -/
 def collectF {β : Type} [Inhabited β] [DecidableEq β] (runs : List (RowRunVF α β)) : Flat β :=
-  flatten (runs.map fun r => (r.1, readRow pendVF (·.2) r.2 0))
+  flatten (collectG pendVF (·.2) runs)
 
 /-! ### `get_range` -/
 
